@@ -271,6 +271,17 @@ pub struct NetBlock {
 }
 
 impl NetBlock {
+    /// True if the block is consensus-valid by construction (unmutated, or mutated only to a
+    /// boundary value that is still valid), i.e. what an honest adapter relays.
+    pub fn is_honest(&self) -> bool {
+        match self.mutation {
+            Mutation::None => true,
+            Mutation::TimeMtp(d) => d >= 1,
+            Mutation::TimeFuture(d) => d <= 0,
+            _ => false,
+        }
+    }
+
     pub fn header(&self) -> &Header {
         &self.block.header
     }
@@ -422,7 +433,7 @@ impl BtcNet {
             let ancestors = self.chain_to(spec.parent);
             self.blocks
                 .values()
-                .filter(|b| !ancestors.contains(&b.id) && b.mutation == Mutation::None)
+                .filter(|b| !ancestors.contains(&b.id) && b.is_honest())
                 .flat_map(|b| b.block.txdata.iter().skip(1))
                 .collect()
         } else {
